@@ -63,7 +63,7 @@ def run(prog, rep):
 
     # C03.3: pthread_cond_wait releases and re-acquires the *native* mutex behind the PMutex API's back, so the native mutex must be
     # the only lock state a PMutex has: no lock / trylock / unlock function may maintain another field of struct PMutex_
-    rep.rule("C03.3", "sole state: the lock, trylock and unlock functions of pmutex-posix.c keep no state in struct PMutex_ besides the native mutex "
+    rep.rule("C03.3", "sole state: the lock, trylock and unlock functions of pmutex-posix.c read no state of struct PMutex_ besides the native mutex "
                       "(a condition wait would leave such state stale: it unlocks and relocks the native mutex directly)")
     rec = mu.records.get("PMutex_")
     native = rec.fields[0]["name"] if rec is not None and rec.fields else None
@@ -73,10 +73,20 @@ def run(prog, rep):
         if not any(c.get("callee") in LOCKFAM for (b, i, c) in f_.calls()):
             continue
         n3 += 1
+        # a member that is only ever stored (or counted) at statement level decides nothing; one that is read does
+        wonly = set()
+        for (b, i, s_) in f_.stmts():
+            t_ = None
+            if s_["k"] == "asg":
+                t_ = strip_casts(s_["l"])
+            elif s_["k"] == "un" and ("++" in s_.get("op", "") or "--" in s_.get("op", "")):
+                t_ = strip_casts(s_["e"])
+            if t_ is not None and t_["k"] == "member":
+                wonly.add(id(t_))
         extra = [n for (b, i, n) in f_.nodes(elsewhere=True)
-                 if n["k"] == "member" and n.get("rec") == "PMutex_" and n["field"] != native]
+                 if n["k"] == "member" and n.get("rec") == "PMutex_" and n["field"] != native and id(n) not in wonly]
         rep.ob("C03.3", f_, "sole-state", not extra,
-               "%s touches no field of struct PMutex_ but the native mutex" % f_.name if not extra else
+               "%s reads no field of struct PMutex_ but the native mutex" % f_.name if not extra else
                "line %d: %s keeps lock state in PMutex_.%s: p_cond_variable_wait unlocks and relocks the native mutex directly, so after a wait this field no longer "
                "matches the mutex (a later p_mutex_trylock decides on stale state)" % (line(extra[0]), f_.name, extra[0]["field"]), extra[0] if extra else f_.loc[0])
     rep.floor("C03.3", 3)
@@ -97,7 +107,11 @@ SELFTEST = [
          old="struct PMutex_ {\n\tmutex_hdl\thdl;\n};", new="struct PMutex_ {\n\tmutex_hdl\thdl;\n\tpint\t\towner;\n};"),
     dict(id="mutex-locked-hint", file="src/pmutex-posix.c", expect="C03.3",
          edits=[dict(file="src/pmutex-posix.c", old="struct PMutex_ {\n\tmutex_hdl\thdl;\n};", new="struct PMutex_ {\n\tmutex_hdl\thdl;\n\tvolatile pint\tlocked;\n};"),
-                dict(file="src/pmutex-posix.c", old="\tif (P_LIKELY (pthread_mutex_lock (&mutex->hdl) == 0))\n\t\treturn TRUE;", new="\tif (P_LIKELY (pthread_mutex_lock (&mutex->hdl) == 0)) {\n\t\tmutex->locked = 1;\n\t\treturn TRUE;\n\t}")]),
+                dict(file="src/pmutex-posix.c", old="\tif (P_LIKELY (pthread_mutex_lock (&mutex->hdl) == 0))\n\t\treturn TRUE;", new="\tif (P_LIKELY (pthread_mutex_lock (&mutex->hdl) == 0)) {\n\t\tmutex->locked = 1;\n\t\treturn TRUE;\n\t}"),
+                dict(file="src/pmutex-posix.c", old="\treturn (pthread_mutex_trylock (&mutex->hdl) == 0) ? TRUE : FALSE;", new="\tif (mutex->locked)\n\t\treturn FALSE;\n\treturn (pthread_mutex_trylock (&mutex->hdl) == 0) ? TRUE : FALSE;")]),
+    dict(id="mutex-lock-counter-neutral", file="src/pmutex-posix.c", expect=None,
+         edits=[dict(file="src/pmutex-posix.c", old="struct PMutex_ {\n\tmutex_hdl\thdl;\n};", new="struct PMutex_ {\n\tmutex_hdl\thdl;\n\tpuint\t\tnlocks;\n};"),
+                dict(file="src/pmutex-posix.c", old="\tif (P_LIKELY (pthread_mutex_lock (&mutex->hdl) == 0))\n\t\treturn TRUE;", new="\tif (P_LIKELY (pthread_mutex_lock (&mutex->hdl) == 0)) {\n\t\tmutex->nlocks++;\n\t\treturn TRUE;\n\t}")]),
     dict(id="wait-wrong-mutex", file="src/pcondvariable-posix.c", expect="C03.2",
          old="(pthread_mutex_t *) mutex) != 0", new="(pthread_mutex_t *) cond) != 0"),
     dict(id="wait-not-form-neutral", file="src/pcondvariable-posix.c", expect=None,
